@@ -188,8 +188,11 @@ const (
 )
 
 // step releases th and observes where it stops: at its next point / done, or blocked on the database
-// connection (it did not arrive, the pool reports a new waiter and a busy connection, and it still has
-// not arrived after the grace period). A thread that was released and has not arrived is `pending`.
+// connection. "Blocked" is never inferred from elapsed time alone: the thread itself must have announced
+// (verifsched.Mark, injected right before db.Query / db.Exec) that it is asking the pool for a connection,
+// the pool must report a new waiter and no free connection, and the thread must still not have arrived
+// after the grace period. A thread that has not marked is simply waited for, however slow the machine is.
+// A thread that was released and has not arrived is `pending`.
 func (h *H) step(am *auth.AuthManager, th *thr) (string, int) {
 	db := am.GetDB()
 	wc0 := db.Stats().WaitCount
@@ -198,17 +201,22 @@ func (h *H) step(am *auth.AuthManager, th *thr) (string, int) {
 	}
 	th.t.Release()
 	th.pending = true
-	deadline := time.Now().Add(60 * time.Second)
+	deadline := time.Now().Add(120 * time.Second)
 	for {
 		if p, ok := th.await(100 * time.Microsecond); ok {
 			return p, stArrived
 		}
-		st := db.Stats()
-		if st.WaitCount > wc0 && st.InUse >= 1 {
-			if p, ok := th.await(h.grace); ok {
-				return p, stArrived
+		if th.t.WantsDB() {
+			st := db.Stats()
+			if st.WaitCount > wc0 && st.InUse >= 1 && (st.MaxOpenConnections == 0 || st.InUse >= st.MaxOpenConnections) {
+				if p, ok := th.await(h.grace); ok {
+					return p, stArrived
+				}
+				st = db.Stats()
+				if th.t.WantsDB() && st.InUse >= 1 && (st.MaxOpenConnections == 0 || st.InUse >= st.MaxOpenConnections) {
+					return "", stBlocked
+				}
 			}
-			return "", stBlocked
 		}
 		if time.Now().After(deadline) {
 			return "", stHung
@@ -483,8 +491,13 @@ func (h *H) runForced(cs caseSpec, prefix []int, rnd *vh.Rand, tickP int) runOut
 			if _, ok := th.await(0); ok {
 				return abort() // it was not blocked after all
 			}
-			if !finish(holder) {
-				return abort()
+			for !holder.t.Done() {
+				if _, ok := th.await(0); ok {
+					return abort() // it got a connection while the presumed owner still holds its rows: not blocked
+				}
+				if _, st := doStep(holder); st != stArrived {
+					return abort()
+				}
 			}
 			p, ok := th.await(60 * time.Second)
 			if !ok {
